@@ -1,7 +1,7 @@
 ------------------------------ MODULE TraceTmp -------------------------------
 (***************************************************************************)
 (* Operation sequences executed on the real TmpNodes / TmpNodesReader      *)
-(* (exported by hook H3), checked against TmpNodesOps.tla.  One line = one *)
+(* (exported by hook H5), checked against TmpNodesOps.tla.  One line = one *)
 (* buffer:                                                                 *)
 (*   ops : the calls, in order: {op: "put", id, d} | {op: "remove", id} |  *)
 (*         {op: "remap", id, to}                                           *)
